@@ -1,37 +1,10 @@
 (* C08 - serialization options only project the plain output.
-   Model: Verif.OptProj (flat body of to_dict, parametric in the packed field values);
-   kernels translated from /repo on this run: VerifGen.K3, VerifGen.K8. *)
+   Model: Verif.OptProj (flat body of to_dict, parametric in the packed field values).
+   Kernel theorems: C08_kernels.v; nested classes: C08_nested.v. *)
 From Coq Require Import List String ZArith Bool.
-From Verif Require Import PyK PyK_c08 OptProj OptProjProofs K3Proofs K8Proofs.
-From VerifGen Require Import K3 K8.
+From Verif Require Import OptProj OptProjProofs.
 Import ListNotations.
 Open Scope string_scope.
-
-(* ---- K3: option lookup order ---- *)
-Theorem K3_order : forall d cd c dd opt dflt,
-  get_dialect_or_config_option d cd c dd (KStr opt) dflt
-  = Ok (first_nonmissing [ns_opt d opt; ns_opt cd opt; ns_opt c opt; ns_opt dd opt] dflt).
-Proof. exact K3_order_lemma. Qed.
-Print Assumptions K3_order.
-
-Theorem K3_look : forall d cd c dd x,
-  get_dialect_or_config_option (enc_ons d) (enc_ons cd) (enc_ons c) (enc_ons dd) (KStr (opt_str x)) (KBool false)
-  = Ok (KBool (look (opt_sel x) [d; cd; c; dd])).
-Proof. exact K3_look_lemma. Qed.
-Print Assumptions K3_look.
-
-(* ---- K8: flags forwarded to a nested class; kwargs-vs-literal ---- *)
-Theorem K8_forward : forall a b : flags,
-  get_pack_method_flags (enc_flags a) (enc_flags b) = Ok (KStr (String.concat ", " (flag_args (both a b)))).
-Proof. exact K8_forward_lemma. Qed.
-Print Assumptions K8_forward.
-
-Theorem K8_use_kwargs : forall (c: sctx) (fs: list fplan),
-  res_truthy (use_kwargs_test (names_of (fun p => nullable p && negb p.(p_trivial)) fs) (names_of nullable fs)
-                              (KBool c.(s_on)) (KBool c.(s_fon)) (KBool c.(s_fba)) (aliases_of fs) (KBool c.(s_od)))
-  = Some (use_kwargs c fs).
-Proof. exact K8_use_kwargs_lemma. Qed.
-Print Assumptions K8_use_kwargs.
 
 (* ---- the property, flat ---- *)
 Definition C08_project_full : Prop :=
